@@ -333,7 +333,7 @@ func (u *unitCtx) stmt(level int) {
 			return
 		}
 		ci := rapid.SampledFrom(c).Draw(t, "foreachClass")
-		xv := u.g.names.Var(t)
+		xv := u.freshLocal()
 		w.S("for (" + u.g.sigs[ci].name + " " + xv + " : ")
 		u.expr(level, 2)
 		w.S(") {")
@@ -516,6 +516,10 @@ func (u *unitCtx) args(level, depth int, lambdaOK bool) {
 		if lambdaOK && rapid.IntRange(0, 9).Draw(t, "lambdaArg") == 0 {
 			u.lambdaN++
 			lv := fmt.Sprintf("lx%d", u.lambdaN)
+			if u.g.o.NameReuse && rapid.Bool().Draw(t, "lambdaReusedName") {
+				// a lambda parameter named like a variable of another method or file
+				lv = u.freshLocal()
+			}
 			w.S(lv + " -> " + lv + ".")
 			line, col := w.Line(), w.Col()
 			name := rapid.SampledFrom([]string{"trim", "size", "run"}).Draw(t, "lambdaCallee")
